@@ -39,7 +39,7 @@ BASES = [
      {"aggfunc": ["mean", "median", "min", "max"]}),
     (["reduce", {"strategy": "recursive", "window_length": 3, "reg": "lin"}], {"window_length": [2, 3, 4]}),
 ]
-METRICS = [None, "mape", "mse", "asym_fn", "neg_mae", "neg_asym", "mae", "rmspe", "mdspe", "rmdspe_sym"]
+METRICS = [None, "mape", "mse", "asym_fn", "neg_mae", "neg_asym", "mae", "rmspe", "mdspe", "rmdspe_sym", "mdae", "rmse"]
 
 
 def cases(tier, seed):
@@ -47,7 +47,7 @@ def cases(tier, seed):
     n_cases = 110 if tier == "quick" else 3000
     for i in range(n_cases):
         b = i % len(BASES)
-        fh = [[1], [1, 2], [1, 2, 3], [2], [1, 3]][int(rng.integers(0, 5))]
+        fh = [[1], [1, 2], [1, 2, 3], [2], [1, 3], [1, 2, 3, 4]][int(rng.integers(0, 6))]
         wl = int(rng.integers(10, 15))
         n = int(rng.integers(wl + max(fh) + 4, 44))
         cvk = ["sliding", "expanding", "single"][int(rng.integers(0, 3))]
